@@ -8,13 +8,68 @@
   from cleared flags and sees only what its own `setup` establishes.
 -/
 import Cobweb.Proofs.Trackers
+import Cobweb.Proofs.Flags
 import Cobweb.Theorems.C03
 
 namespace Cobweb.C04
 
-/-- All four trackers idle. -/
+/-- All four trackers idle (componentwise form of `Cobweb.Idle`). -/
 def Idle (s : St) : Prop :=
   s.trkSys.reacting = false ∧ s.trkEvt.reacting = false ∧ s.trkEnt.reacting = false ∧ s.trkDsp.reacting = false
+
+theorem idle_iff (s : St) : Cobweb.Idle s ↔ Idle s := by
+  simp [Cobweb.Idle, Fl, Idle]
+
+/-- **C04, whole executions.** In every state reachable by any program and any history, whenever the runner is about to
+    look up the target of a command — a nested reaction, a manual run, a re-run of the same reactor, a probe, at any
+    depth of any tree — all four trackers are idle and the world queue is empty: the run that follows can read only what
+    its own `setup` establishes (`idle_sees_nothing`, `C03` partial theorems), never the data of the run that queued it. -/
+theorem C04_every_run_starts_idle (p : Prog) (h : Hist) {s0 s : St} (hc : Ctl s0) (ho : OnceInv s0) (hf : FlagInv s0)
+    (hr : Reach p h s0 s) {sys idx : Nat} {k : Kind} {rest : List Frame} (hst : s.stack = .runnerLookup sys k idx :: rest) :
+    Idle s ∧ s.wq = [] := by
+  obtain ⟨_, _, f⟩ := all_reach p h hc ho hf hr
+  have := f.top; rw [hst] at this
+  exact ⟨(idle_iff s).mp this.1, this.2⟩
+
+/-- The same at every command boundary: when a batch is about to apply a command that is not the queued cleanup of an
+    exclusive system, the trackers are idle. -/
+theorem C04_commands_start_idle (p : Prog) (h : Hist) {s0 s : St} (hc : Ctl s0) (ho : OnceInv s0) (hf : FlagInv s0)
+    (hr : Reach p h s0 s) {c : Cmd} {cs : List Cmd} {rest : List Frame} (hst : s.stack = .batch (c :: cs) :: rest)
+    (hnc : isCleanup c = false) : Idle s := by
+  obtain ⟨_, _, f⟩ := all_reach p h hc ho hf hr
+  have := f.top; rw [hst] at this
+  rcases this with ⟨k, tl, hcs, _⟩ | ⟨hi, _, _⟩
+  · simp only [List.cons.injEq] at hcs; rw [hcs.1] at hnc; cases hnc
+  · exact (idle_iff s).mp hi
+
+/-- A flag is set only while the cleanup that clears it is the very next thing the machine does: the top of the stack
+    is the body (ordinary), its `cleanup` frame, or — for an exclusive system — the body / the flush / the batch whose
+    first command is the queued cleanup. -/
+theorem C04_flag_means_cleanup_pending (p : Prog) (h : Hist) {s0 s : St} (hc : Ctl s0) (ho : OnceInv s0) (hf : FlagInv s0)
+    (hr : Reach p h s0 s) (hflag : ¬ Idle s) :
+    ∃ f rest, s.stack = f :: rest ∧
+      ((∃ sys k i acc, f = .bodyActs sys k i acc) ∨ (∃ k, f = .cleanup k) ∨ (∃ sys i, f = .exclActs sys i) ∨
+       f = .flush ∨ (∃ k tl, f = .batch (Cmd.cleanup k :: tl))) := by
+  obtain ⟨_, _, fi⟩ := all_reach p h hc ho hf hr
+  have ht := fi.top
+  cases hst : s.stack with
+  | nil => rw [hst] at ht; exact absurd ((idle_iff s).mp ht.1) hflag
+  | cons f rest =>
+    rw [hst] at ht
+    refine ⟨f, rest, rfl, ?_⟩
+    cases f with
+    | bodyActs sys k i acc => exact Or.inl ⟨sys, k, i, acc, rfl⟩
+    | cleanup k => exact Or.inr (Or.inl ⟨k, rfl⟩)
+    | exclActs sys i => exact Or.inr (Or.inr (Or.inl ⟨sys, i, rfl⟩))
+    | flush => exact Or.inr (Or.inr (Or.inr (Or.inl rfl)))
+    | batch cs =>
+      rcases ht with ⟨k, tl, hcs, _⟩ | ⟨hi, _, _⟩
+      · exact Or.inr (Or.inr (Or.inr (Or.inr ⟨k, tl, by rw [hcs]⟩)))
+      · exact absurd ((idle_iff s).mp hi) hflag
+    | topActs t i => exact absurd ((idle_iff s).mp ht.1) hflag
+    | _ => exact absurd ((idle_iff s).mp ht.1) hflag
+
+example : FlagInv ({} : St) := flag_default
 
 /-- With idle trackers every reader reports nothing — whatever stale `data_entity` / source the trackers still hold
     and even if that data entity is still alive (a broadcast with further readers to come). -/
